@@ -3,7 +3,7 @@
 From Verif Require Import Prelude Barcode.
 From Verif Require Import DataMatrixM DataMatrixSpec DataMatrixP1 DataMatrixProps.
 From Verif Require Import QRM QRSpec QRP6Compose QRProps.
-From Verif Require Import AztecM AztecSpec AztecProps TabPdf417 Pdf417M Pdf417Spec Pdf417Props.
+From Verif Require Import AztecM AztecSpec AztecProps TabPdf417 Pdf417M Pdf417Spec Pdf417Props ExamplesP.
 
 (* QR: the version is the smallest one whose capacity at the requested level holds the content
    in the mode used; Auto uses the densest single mode that can express the content *)
@@ -48,3 +48,13 @@ Theorem C13_pdf417 : forall data level cols bc, pdf_bytes data -> 0 <= level <= 
     /\ zlength (ps_codewords sym) = ps_rows sym * ps_cols sym /\ zlength (ps_codewords sym) <= 928.
 Proof. exact pdf_c13. Qed.
 Print Assumptions C13_pdf417.
+
+(* the premises of the theorems above are satisfiable: one accepted input per 2-D symbology *)
+Example C13_nonvacuous :
+  accepted (dm_encode [72; 101; 108; 108; 111; 32; 49; 50; 51; 52])
+  /\ bytes [72; 101; 108; 108; 111; 32; 49; 50; 51; 52]
+  /\ accepted (qr_encode [104; 101; 108; 108; 111] 1 0 3)
+  /\ is_bytes [104; 101; 108; 108; 111] /\ valid_encoding 0
+  /\ accepted (az_encode c03_hello 33 0) /\ az_in_domain c03_hello 33
+  /\ accepted (pdf_encode pdf_ex_padpunct 2 3) /\ pdf_bytes pdf_ex_padpunct.
+Proof. exact twod_examples. Qed.
